@@ -1,8 +1,9 @@
 \* DiffTouch: every edit script of <= MaxOps ops x block placement x layout x M kind
 CONSTANTS
-  GenLen = 12
+  GenSparse = FALSE
+  GenLen = 10
   MaxOps = 5
-  MaxBlocks = 2
+  MaxBlocks = 1
   Layouts = {"line", "inline", "cont", "mltag", "mb"}
   FixU1 = TRUE
   FixF1 = TRUE
